@@ -997,6 +997,119 @@ def render_seq() -> str:
     return "\n".join(lines)
 
 
+# ---------------------------------------------------------------------------------------------
+# NTupleValidator (tuple.py) -> Koda.NStmt (lean/KodaModel/PyNTuple.lean)
+
+OUT_NTUPLE = os.path.join(os.path.dirname(OUT), "NTupleSrc.lean")
+NVARS = {"coerced": "coerced", "coerced_val": "coercedVal", "errs": "errs", "vals": "vals", "i": "i", "validator": "validator",
+         "tuple_val": "tupleVal", "succeeded": "succeeded", "new_val": "newVal", "obj": "obj", "obj_result": "objResult"}
+NSELF = {"coerce": "coerce", "_len_predicate": "lenPredicate", "validate_object": "validateObject",
+         "_wrapped_fields_sync": "wrappedSync", "_wrapped_fields_async": "wrappedAsync"}
+NATTRS = {"is_just": "isJust", "val": "valA", "compatible_types": "compatibleTypes"}
+NCTORS = {"CoercionErr": ("mkCoercionErr", 2), "TypeErr": ("mkTypeErr", 1), "PredicateErrs": ("mkPredErrs", 1),
+          "IndexErrs": ("mkIndexErrs", 1), "Invalid": ("mkInvalid", 3), "enumerate": ("enumerate", 1), "zip": ("zip", 2),
+          "tuple": ("tupleOf", 1)}
+NTYS = {"list": ".listTy", "tuple": ".tupleTy"}
+
+
+class NTr:
+    def exp(self, e: ast.expr) -> str:
+        if isinstance(e, ast.Name):
+            if e.id == "self":
+                return ".self"
+            if e.id == "val":
+                return ".val"
+            if e.id in NTYS:
+                return NTYS[e.id]
+            if e.id in NVARS:
+                return f"(.var .{NVARS[e.id]})"
+        if isinstance(e, ast.Constant) and isinstance(e.value, bool):
+            return f"(.bool {'true' if e.value else 'false'})"
+        if isinstance(e, ast.List) and not e.elts:
+            return ".emptyList"
+        if isinstance(e, ast.List) and len(e.elts) == 1:
+            return f"(.list1 {self.exp(e.elts[0])})"
+        if isinstance(e, ast.Dict) and not e.keys:
+            return ".emptyDict"
+        if isinstance(e, ast.Await):
+            return f"(.await {self.exp(e.value)})"
+        if isinstance(e, ast.Tuple) and len(e.elts) == 2:
+            return f"(.pair {self.exp(e.elts[0])} {self.exp(e.elts[1])})"
+        if isinstance(e, ast.NamedExpr) and isinstance(e.target, ast.Name) and e.target.id in NVARS:
+            return f"(.walrus .{NVARS[e.target.id]} {self.exp(e.value)})"
+        if isinstance(e, ast.UnaryOp) and isinstance(e.op, ast.Not):
+            return f"(.not {self.exp(e.operand)})"
+        if isinstance(e, ast.Compare) and len(e.ops) == 1 and isinstance(e.ops[0], ast.Is):
+            l, r = e.left, e.comparators[0]
+            if (isinstance(l, ast.Call) and isinstance(l.func, ast.Name) and l.func.id == "type"
+                    and len(l.args) == 1 and not l.keywords and isinstance(r, ast.Name) and r.id in NTYS):
+                return f"(.typeIs {self.exp(l.args[0])} {NTYS[r.id]})"
+            if isinstance(r, ast.Constant) and r.value is None:
+                return f"(.isNone {self.exp(l)})"
+        if isinstance(e, ast.Attribute):
+            if isinstance(e.value, ast.Name) and e.value.id == "self":
+                a = f".{NSELF[e.attr]}" if e.attr in NSELF else f"(.other {lstr(e.attr)})"
+                return f"(.selfAttr {a})"
+            a = f".{NATTRS[e.attr]}" if e.attr in NATTRS else f"(.other {lstr(e.attr)})"
+            return f"(.attr {self.exp(e.value)} {a})"
+        if isinstance(e, ast.Call) and not e.keywords and not any(isinstance(a, ast.Starred) for a in e.args):
+            f, args = e.func, e.args
+            if isinstance(f, ast.Name) and f.id in NCTORS and len(args) == NCTORS[f.id][1]:
+                return f"(.{NCTORS[f.id][0]} {' '.join(self.exp(a) for a in args)})"
+            if len(args) == 1 and not (isinstance(f, ast.Name) and f.id not in NVARS):
+                return f"(.call1 {self.exp(f)} {self.exp(args[0])})"
+        return f"(.unsupported {lstr(ast.dump(e)[:160])})"
+
+    def stmt(self, s: ast.stmt) -> str:
+        if isinstance(s, ast.Assign) and len(s.targets) == 1:
+            t = s.targets[0]
+            if isinstance(t, ast.Name) and t.id in NVARS:
+                return f"(.assign .{NVARS[t.id]} {self.exp(s.value)})"
+            if (isinstance(t, ast.Tuple) and len(t.elts) == 2 and all(isinstance(x, ast.Name) and x.id in NVARS for x in t.elts)):
+                return f"(.assign2 .{NVARS[t.elts[0].id]} .{NVARS[t.elts[1].id]} {self.exp(s.value)})"
+            if isinstance(t, ast.Subscript) and isinstance(t.value, ast.Name) and t.value.id in NVARS:
+                return f"(.setItem .{NVARS[t.value.id]} {self.exp(t.slice)} {self.exp(s.value)})"
+        if isinstance(s, ast.AnnAssign) and isinstance(s.target, ast.Name) and s.target.id in NVARS and s.value is not None:
+            return f"(.assign .{NVARS[s.target.id]} {self.exp(s.value)})"
+        if isinstance(s, ast.If):
+            return f"(.ite {self.exp(s.test)} {self.block(s.body)} {self.block(s.orelse)})"
+        if isinstance(s, ast.For) and not s.orelse:
+            t = s.target
+            if (isinstance(t, ast.Tuple) and len(t.elts) == 2 and isinstance(t.elts[0], ast.Name) and t.elts[0].id in NVARS
+                    and isinstance(t.elts[1], ast.Tuple) and len(t.elts[1].elts) == 2
+                    and all(isinstance(x, ast.Name) and x.id in NVARS for x in t.elts[1].elts)):
+                a, b = t.elts[1].elts
+                return f"(.forIn3 .{NVARS[t.elts[0].id]} .{NVARS[a.id]} .{NVARS[b.id]} {self.exp(s.iter)} {self.block(s.body)})"
+        if isinstance(s, ast.Return) and s.value is not None:
+            return f"(.ret {self.exp(s.value)})"
+        if isinstance(s, ast.Expr) and isinstance(s.value, ast.Call):
+            c = s.value
+            if (isinstance(c.func, ast.Attribute) and c.func.attr == "append" and isinstance(c.func.value, ast.Name)
+                    and c.func.value.id in NVARS and len(c.args) == 1 and not c.keywords):
+                return f"(.append .{NVARS[c.func.value.id]} {self.exp(c.args[0])})"
+        return f"(.unsupported {lstr(ast.dump(s)[:160])})"
+
+    def block(self, body: List[ast.stmt]) -> str:
+        body = [s for s in body if not (isinstance(s, ast.Expr) and isinstance(s.value, ast.Constant))]
+        return "[" + ", ".join(self.stmt(s) for s in body) + "]"
+
+
+def render_ntuple() -> str:
+    lines = ["/- GENERATED by harness/pysrc.py from the current source of /repo/koda_validate/tuple.py — do not edit -/",
+             "import KodaModel.PyNTuple", "", "namespace Koda.Src", ""]
+    for meth, name in (("_validate_to_tuple", "ntupleSync"), ("_validate_to_tuple_async", "ntupleAsync")):
+        m = _find_method("tuple.py", "NTupleValidator", meth)
+        ok = (m is not None and [a.arg for a in m.args.args] == ["self", "val"] and not m.decorator_list
+              and isinstance(m, ast.AsyncFunctionDef) == meth.endswith("_async"))
+        term = NTr().block(m.body) if ok else '[.unsupported "not found / signature"]'
+        lines += [f"def {name} : List NStmt :=", f"  {term}", ""]
+    m = _find_method("tuple.py", "NTupleValidator", "__init__")
+    init = (" ; ".join(ast.unparse(b) for b in m.body if not (isinstance(b, ast.Expr) and isinstance(b.value, ast.Constant)))
+            if m is not None else "<not found>")
+    lines += [f"def ntupleInit : String := {lstr(init)}", "", "end Koda.Src", ""]
+    return "\n".join(lines)
+
+
 def render() -> str:
     found = collect()
     lines = ["/- GENERATED by harness/pysrc.py from the current source of /repo/koda_validate — do not edit -/",
@@ -1015,7 +1128,7 @@ def render() -> str:
 
 def regenerate() -> bool:
     changed = False
-    for path, new in ((OUT, render()), (OUT_COERCE, render_coerce()), (OUT_SCALAR, render_scalar()), (OUT_UNION, render_union()), (OUT_LIST, render_list()), (OUT_WRAP, render_wrap()), (OUT_EQ, render_eq()), (OUT_CACHE, render_cache()), (OUT_SEQ, render_seq())):
+    for path, new in ((OUT, render()), (OUT_COERCE, render_coerce()), (OUT_SCALAR, render_scalar()), (OUT_UNION, render_union()), (OUT_LIST, render_list()), (OUT_WRAP, render_wrap()), (OUT_EQ, render_eq()), (OUT_CACHE, render_cache()), (OUT_SEQ, render_seq()), (OUT_NTUPLE, render_ntuple())):
         old = open(path).read() if os.path.exists(path) else None
         if new != old:
             with open(path, "w") as f:
